@@ -131,6 +131,7 @@ PLANS["C01"] = {
                                spread(seed, "C01d", N(tier, 20, 400), ["QF_IDL", "QF_RDL", "QF_IDL", "QF_RDL", "QF_UFIDL"], "answers", mode="cnf", nnum=5, maxconst=2, n_atoms=10) +
                                spread(seed, "C01e", N(tier, 30, 600), ["QF_UF"], "answers", mode="diamond") +
                                spread(seed, "C01u", N(tier, 30, 600), ["QF_LRA", "QF_LRA", "QF_LIA"], "answers", mode="guarded", nnum=6) +
+                               spread(seed, "C01v", N(tier, 20, 400), ["QF_LRA"], "answers", mode="guarded", nnum=12) +
                                spread(seed, "C01y", N(tier, 30, 600), ["QF_UFLRA", "QF_UFLRA", "QF_UFLIA"], "answers", mode="eqsys") +
                                spread(seed, "C01g", N(tier, 40, 800), ["QF_IDL", "QF_RDL", "QF_IDL", "QF_RDL", "QF_UFIDL"], "answers", mode="dlgraph", nnum=5) +
                                spread(seed, "C01b", N(tier, 26, 600), ALL_LOGICS, "answers", more_cfgs=["la", "ghost"]),
@@ -308,6 +309,7 @@ PLANS["C30"] = {
                                spread(seed, "C30d", N(tier, 20, 400), ["QF_RDL", "QF_UFRDL", "QF_LRA", "QF_RDL"], "configs", mode="cnf", maxconst=1,
                                       cfgs=["proofs", "cores", "seed", "itp"], timeout=20) +
                                spread(seed, "C30u", N(tier, 30, 600), ["QF_LRA"], "configs", mode="guarded", nnum=6, cfgs=["proofs", "seed"], timeout=20) +
+                               spread(seed, "C30v", N(tier, 20, 400), ["QF_LRA"], "configs", mode="guarded", nnum=12, cfgs=["proofs"], timeout=20) +
                                spread(seed, "C30y", N(tier, 40, 800), ["QF_UFLRA"], "configs", mode="eqsys", cfgs=["seed", "nosubst", "cores"], timeout=20) +
                                spread(seed, "C30g", N(tier, 40, 800), ["QF_RDL", "QF_UFRDL", "QF_RDL"], "configs", mode="dlgraph", nnum=5,
                                       cfgs=["proofs", "cores", "seed"], timeout=20),
@@ -338,7 +340,8 @@ PLANS["C11"] = {
                                            [["c0"], ["c0", "la"], ["ghost"], ["picky"], ["proofs"], ["seed"]], need="tcl") +
                                engine_jobs(seed, "C11d", N(tier, 60, 1200), ["QF_IDL", "QF_RDL", "QF_IDL", "QF_RDL", "QF_LRA", "QF_UF"],
                                            [["c0"], ["proofs"], ["cores"]], need="tcl", modes=["cnf", "dlgraph", "dlgraph"], nnum=5, maxconst=2, n_atoms=12, ratio=2.2) +
-                               engine_jobs(seed, "C11g", N(tier, 40, 800), ["QF_LRA", "QF_LRA", "QF_LIA"], [["c0"], ["proofs"]], need="tcl", modes=["guarded"], nnum=6, timeout=10),
+                               engine_jobs(seed, "C11g", N(tier, 40, 800), ["QF_LRA", "QF_LRA", "QF_LIA"], [["c0"], ["proofs"]], need="tcl", modes=["guarded"], nnum=6, timeout=10) +
+                               engine_jobs(seed, "C11h", N(tier, 30, 600), ["QF_LRA"], [["c0"], ["proofs"]], need="tcl", modes=["guarded"], nnum=12, timeout=10),
     "rule": "every theory clause (conflict, explanation of a propagation, split, root-level deduction) of runs over the theory "
             "logics and engines; the kernel evaluates candidate models of the negated clause; non-trivial = the run produced a theory clause",
 }
@@ -403,6 +406,8 @@ TS_LOGICS = ["QF_LRA", "QF_UF", "QF_RDL", "QF_IDL", "QF_LIA"]
 def tsolver_jobs(seed, tier):
     jobs = spread(seed, "C22t", N(tier, 28, 700), TS_LOGICS, "tsolver", mode="tlc", nseq=N(tier, 40, 60), n_atoms=3)
     jobs += spread(seed, "C22r", N(tier, 42, 1000), TS_LOGICS, "tsolver", mode="random", nseq=N(tier, 5, 8), n_atoms=7)
+    jobs += spread(seed, "C22a", N(tier, 20, 500), ["QF_AX"], "tsolver", mode="random", nseq=N(tier, 8, 10), n_atoms=7)
+    jobs += spread(seed, "C22b", N(tier, 6, 100), ["QF_AX"], "tsolver", mode="tlc", nseq=N(tier, 40, 60), n_atoms=3)
     return jobs
 PLANS["C22"] = {
     "module": "TSolver_Trace", "pre": lambda: driver_build(),
@@ -410,7 +415,7 @@ PLANS["C22"] = {
     "mc": [{"module": "MC_TSolver"}],
     "per_batch": 6,
     "remap": lambda v: "C22" if v.get("p") in ("C22",) else v.get("p"),
-    "rule": "operation sequences (declare / assert / retract / check) on the LA, EUF and difference-logic solvers through TSolverHandler: "
+    "rule": "operation sequences (declare / assert / retract / check) on the LA, EUF, array and difference-logic solvers through TSolverHandler: "
             "(a) behaviours of MC_TSolver (all complete sequences of 4 operations over 3 atoms, sampled per family) with concrete atoms, "
             "(b) random sequences of 20-50 operations over 7 atoms; verdicts judged by the kernel (model evaluation / FM+CC refutation) "
             "and by a memo keyed by the literal set; non-trivial = the sequence contains a check",
